@@ -340,6 +340,22 @@ example : (lowerProgram [] (fun _ _ _ => .bad) exSP2).isSome = true := by
     typeDefined, scopeAdd, lowerStmts, lowerStmt, lowerExpr, scopeGet, patsOfE, scanPats, scanVals, patEq, isVar, bindingOf,
     defaultOk, lowerArmsE, lowerPat, lowerPatValsE, isLiteral, unify, Ty.matchesT, Ty.fits, missingDefault, cardinality]
 
+/-- `enum E { A, B }`
+    `function m(e enum E, b bool) int { match b { true => { return 1 } false => { } }  return match e { E::B => 2, E::A => 3 } }`:
+    matches without default arm, exhaustive by the compiler's counting check (`patsFlat`) -/
+def exSP3 : SProgram :=
+  { uses := [], enums := [(40, [41, 42])], structs := [], globals := [],
+    funs := [
+      { name := 15, params := [(25, .enum 40), (26, .bool)], ret := .int,
+        body := [.mtch (.var 26) [(.values [.bool true], [.ret (.int 1)]), (.values [.bool false], [])],
+                 .ret (.mtch (.var 25) [(.values [.enumRef 40 42 0], .int 2), (.values [.enumRef 40 41 0], .int 3)])] }] }
+example : FragProg exSP3 := ⟨by decide, by decide, by decide, by decide, by decide⟩
+example : (lowerProgram [] (fun _ _ _ => .bad) exSP3).isSome = true := by
+  simp [exSP3, lowerProgram, topoOrder, findDup, builtinSigs, builtinNames, builtinRet, List.range, List.range.loop, lowerFun,
+    typeDefined, scopeAdd, lowerStmts, lowerStmt, lowerExpr, scopeGet, patsOfE, patsOfS, scanPats, scanVals, patEq, isVar, bindingOf,
+    defaultOk, lowerArmsE, lowerArmsS, lowerPat, lowerPatValsE, isLiteral, unify, Ty.matchesT, Ty.fits, missingDefault, cardinality,
+    indexOf?, indexOf?.go]
+
 /-! ### non-vacuity: `exProg2` of Props/C22 (a function with `let`, `if`, `return` and a builtin
 call) satisfies the hypotheses of `no_machine_type_error_partial`; see the examples there. -/
 
